@@ -16,221 +16,9 @@
   stmt  = ["obs",[expr…]] | ["w",cfg,field,expr] | ["if",expr,[stmt…],[stmt…]]
         | ["for",name,id,expr,expr,[stmt…]] | ["pass"]
 -/
-import Lean.Data.Json
-import ExoModel.Simplify
-import ExoModel.SimplifyOracle
-
-open Lean Exo.Simplify
-open Exo (Sym)
-
-def opOfStr : String → Option Op
-  | "+" => some .add | "-" => some .sub | "*" => some .mul | "/" => some .div | "%" => some .mod
-  | "and" => some .and | "or" => some .or | "<" => some .lt | ">" => some .gt
-  | "<=" => some .le | ">=" => some .ge | "==" => some .eq
-  | _ => none
-
-def jInt (j : Json) : Except String Int :=
-  match j.getInt? with
-  | .ok v => .ok v
-  | .error e => .error e
-
-def jNat (j : Json) : Except String Nat := do
-  let v ← jInt j
-  if v < 0 then throw "negative id" else pure v.toNat
-
-partial def decE (j : Json) : Except String Expr := do
-  let a ← j.getArr?
-  let tag ← (a[0]?.getD Json.null).getStr?
-  match tag with
-  | "v" => pure (.var ⟨← (a[1]?.getD Json.null).getStr?, ← jNat (a[2]?.getD Json.null)⟩)
-  | "c" => pure (.const (← jInt (a[1]?.getD Json.null)))
-  | "b" => pure (.bconst (← (a[1]?.getD Json.null).getBool?))
-  | "u" => pure (.usub (← decE (a[1]?.getD Json.null)))
-  | "o" =>
-    let s ← (a[1]?.getD Json.null).getStr?
-    match opOfStr s with
-    | some op => pure (.bin op (← decE (a[2]?.getD Json.null)) (← decE (a[3]?.getD Json.null)))
-    | none => throw s!"bad op {s}"
-  | "g" => pure (.cfg (← (a[1]?.getD Json.null).getStr?) (← (a[2]?.getD Json.null).getStr?))
-  | t => throw s!"bad expr tag {t}"
-
-def decEs (j : Json) : Except String (List Expr) := do
-  let a ← j.getArr?
-  a.toList.mapM decE
-
-mutual
-partial def decS (j : Json) : Except String Stmt := do
-  let a ← j.getArr?
-  let tag ← (a[0]?.getD Json.null).getStr?
-  match tag with
-  | "obs" => pure (.obs (← decEs (a[1]?.getD Json.null)))
-  | "w" => pure (.wcfg (← (a[1]?.getD Json.null).getStr?) (← (a[2]?.getD Json.null).getStr?) (← decE (a[3]?.getD Json.null)))
-  | "if" => pure (.ite (← decE (a[1]?.getD Json.null)) (← decB (a[2]?.getD Json.null)) (← decB (a[3]?.getD Json.null)))
-  | "for" =>
-    pure (.loop ⟨← (a[1]?.getD Json.null).getStr?, ← jNat (a[2]?.getD Json.null)⟩
-      (← decE (a[3]?.getD Json.null)) (← decE (a[4]?.getD Json.null)) (← decB (a[5]?.getD Json.null)))
-  | "pass" => pure .pass
-  | t => throw s!"bad stmt tag {t}"
-partial def decB (j : Json) : Except String Block := do
-  let a ← j.getArr?
-  let ss ← a.toList.mapM decS
-  pure (ss.foldr Block.cons .nil)
-end
-
-def encE : Expr → Json
-  | .var s => Json.arr #["v", s.name, (s.id : Nat)]
-  | .const v => Json.arr #["c", Json.num (JsonNumber.fromInt v)]
-  | .bconst b => Json.arr #["b", b]
-  | .usub e => Json.arr #["u", encE e]
-  | .bin op l r => Json.arr #["o", op.str, encE l, encE r]
-  | .cfg c f => Json.arr #["g", c, f]
-
-mutual
-partial def encS : Stmt → Json
-  | .obs es => Json.arr #["obs", Json.arr (es.map encE).toArray]
-  | .wcfg c f e => Json.arr #["w", c, f, encE e]
-  | .ite c t e => Json.arr #["if", encE c, encB t, encB e]
-  | .loop i lo hi b => Json.arr #["for", i.name, (i.id : Nat), encE lo, encE hi, encB b]
-  | .pass => Json.arr #["pass"]
-partial def encB (b : Block) : Json := Json.arr (blockList b).toArray
-partial def blockList : Block → List Json
-  | .nil => []
-  | .cons s b => encS s :: blockList b
-end
-
-def decSym (j : Json) : Except String Sym := do
-  let a ← j.getArr?
-  pure ⟨← (a[0]?.getD Json.null).getStr?, ← jNat (a[1]?.getD Json.null)⟩
-
-def noEq : Expr → Expr → Bool := fun _ _ => false
-
-/-- the repaired oracle used to attribute a value change to finding F2:
-    the modulo query `e < m` additionally needs `0 <= e` -/
-def fixModOracle (O : OracleS) : OracleS := fun sc e op c =>
-  match op with
-  | .lt => O sc e .lt c && O sc e .ge 0
-  | .ge => O sc e .ge c
-
-def optInt (j : Json) : Option Int := match j.getInt? with | .ok v => some v | _ => none
-
-def handle (j : Json) : Except String Json := do
-  let op ← (← j.getObjVal? "op").getStr?
-  match op with
-  | "simplify" =>
-    let sizes ← (← (← j.getObjVal? "sizes").getArr?).toList.mapM decSym
-    let preds ← decEs (← j.getObjVal? "preds")
-    let body ← decB (← j.getObjVal? "body")
-    let fixmod := match j.getObjVal? "fixmod" with | .ok (Json.bool b) => b | _ => false
-    let O0 := rangeOracleS sizes
-    let O := if fixmod then fixModOracle O0 else O0
-    match simplifyB O noEq body, simplifyPreds (O []) noEq preds with
-    | some b, some ps =>
-      -- (`map_proc` drops predicates that became `True`, but its result is discarded: `result()` uses `self.ir`)
-      pure (Json.mkObj [("ok", true), ("body", encB b), ("preds", Json.arr (ps.map encE).toArray)])
-    | _, _ => pure (Json.mkObj [("ok", false), ("err", "model-none")])
-  | "expr" =>
-    let sizes ← (← (← j.getObjVal? "sizes").getArr?).toList.mapM decSym
-    let scj ← (← j.getObjVal? "scope").getArr?
-    -- outermost loop first in the request; `Scope` wants innermost first; bounds get normalised as in map_s
-    let mut sc : Scope := []
-    for l in scj.toList do
-      let a ← l.getArr?
-      let i : Sym := ⟨← (a[0]?.getD Json.null).getStr?, ← jNat (a[1]?.getD Json.null)⟩
-      let lo ← decE (a[2]?.getD Json.null)
-      let hi ← decE (a[3]?.getD Json.null)
-      let O := rangeOracleS sizes sc
-      match normE O lo, normE O hi with
-      | some lo', some hi' => sc := (i, lo', hi') :: sc
-      | _, _ => throw "scope bound not normalisable"
-    let conds ← decEs (← j.getObjVal? "facts")
-    let e ← decE (← j.getObjVal? "e")
-    let O := rangeOracleS sizes sc
-    -- guards, outermost first: each is normalised and simplified under the facts so far, then added
-    let mut F : Facts := []
-    for c in conds do
-      match simplifyE O noEq F c with
-      | some c' => F := addFact c' F
-      | none => throw "guard not simplifiable"
-    match simplifyE O noEq F e with
-    | some e' => pure (Json.mkObj [("ok", true), ("e", encE e'), ("str", keyStr e')])
-    | none => pure (Json.mkObj [("ok", false), ("err", "model-none")])
-  | "trace" =>
-    let body ← decB (← j.getObjVal? "body")
-    let syms ← (← j.getObjVal? "syms").getArr?
-    let mut r : Sym → Int := fun _ => 0
-    for s in syms.toList do
-      let a ← s.getArr?
-      let y : Sym := ⟨← (a[0]?.getD Json.null).getStr?, ← jNat (a[1]?.getD Json.null)⟩
-      r := setSym r y (← jInt (a[2]?.getD Json.null))
-    let cfgs ← (← j.getObjVal? "cfg").getArr?
-    let mut σ : CfgSt := fun _ _ => 0
-    let mut fields : List (String × String) := []
-    for s in cfgs.toList do
-      let a ← s.getArr?
-      let c ← (a[0]?.getD Json.null).getStr?
-      let f ← (a[1]?.getD Json.null).getStr?
-      σ := setCfg σ c f (← jInt (a[2]?.getD Json.null))
-      fields := fields ++ [(c, f)]
-    let p := execB body r σ
-    let tr := Json.arr (p.1.map (fun t => Json.arr (t.map (fun v => Json.num (JsonNumber.fromInt v))).toArray)).toArray
-    let cf := Json.arr (fields.map (fun cf => Json.arr #[cf.1, cf.2, Json.num (JsonNumber.fromInt (p.2 cf.1 cf.2))])).toArray
-    pure (Json.mkObj [("ok", true), ("trace", tr), ("cfg", cf)])
-  | "box" =>
-    let a ← decE (← j.getObjVal? "a")
-    let b ← decE (← j.getObjVal? "b")
-    let vars ← (← j.getObjVal? "vars").getArr?
-    let mut vs : List (Sym × Int × Int) := []
-    for s in vars.toList do
-      let x ← s.getArr?
-      vs := vs ++ [(⟨← (x[0]?.getD Json.null).getStr?, ← jNat (x[1]?.getD Json.null)⟩,
-                    ← jInt (x[2]?.getD Json.null), ← jInt (x[3]?.getD Json.null))]
-    -- all valuations of the box, first differing one
-    let rec go (vs : List (Sym × Int × Int)) (r : Sym → Int) (acc : List (Sym × Int)) : Option (List (Sym × Int)) :=
-      match vs with
-      | [] => if eval ⟨r, fun _ _ => 0⟩ a = eval ⟨r, fun _ _ => 0⟩ b then none else some acc
-      | (s, lo, hi) :: rest =>
-        (List.range (hi - lo).toNat).firstM (fun (k : Nat) => go rest (setSym r s (lo + (k : Int))) (acc ++ [(s, lo + (k : Int))]))
-    match go vs (fun _ => 0) [] with
-    | none => pure (Json.mkObj [("ok", true), ("diff", Json.null)])
-    | some w =>
-      pure (Json.mkObj [("ok", true),
-        ("diff", Json.arr (w.map (fun p => Json.arr #[p.1.name, (p.1.id : Nat), Json.num (JsonNumber.fromInt p.2)])).toArray)])
-  | "str" =>
-    let e ← decE (← j.getObjVal? "e")
-    pure (Json.mkObj [("ok", true), ("str", keyStr e)])
-  | "bound" =>
-    let envj ← (← j.getObjVal? "env").getArr?
-    let mut env : REnv := []
-    for s in envj.toList do
-      let a ← s.getArr?
-      env := env ++ [(⟨← (a[0]?.getD Json.null).getStr?, ← jNat (a[1]?.getD Json.null)⟩,
-                      (optInt (a[2]?.getD Json.null), optInt (a[3]?.getD Json.null)))]
-    let e ← decE (← j.getObjVal? "e")
-    let cmp ← (← j.getObjVal? "cmp").getStr?
-    let c ← jInt (← j.getObjVal? "c")
-    let ans := rangeOracle env e (if cmp == "lt" then .lt else .ge) c
-    pure (Json.mkObj [("ok", true), ("ans", ans)])
-  | o => throw s!"unknown op {o}"
-
-partial def loop (hin hout : IO.FS.Stream) : IO Unit := do
-  let line ← hin.getLine
-  if line.isEmpty then return
-  let l := line.trimAscii.toString
-  if l.isEmpty then
-    loop hin hout
-  else
-    let ans :=
-      match Json.parse l with
-      | .error e => Json.mkObj [("ok", false), ("err", s!"parse: {e}")]
-      | .ok j =>
-        match handle j with
-        | .ok r => r
-        | .error e => Json.mkObj [("ok", false), ("err", s!"request: {e}")]
-    hout.putStrLn ans.compress
-    hout.flush
-    loop hin hout
+import ExoModel.SimplifyWire
 
 def main : IO Unit := do
   let hin ← IO.getStdin
   let hout ← IO.getStdout
-  loop hin hout
+  Exo.Simplify.Wire.loop hin hout
